@@ -26,9 +26,76 @@ TOKENS = ["->", "<-", "->->", "==", "===", "=", "*", "+", "-", "~", "{", "}", "|
           "1", "0", "2147483648", "1.5", "é", "日", "𝄞", "\t", "  ", "\n", "\n\n", "\r\n", "stopping", "cycle", "shuffle", "once", "ref"]
 
 
+# sources whose references carry arguments (tunnels, threads, functions with parameters, divert targets as values):
+# the mutations "rename" / "misname" turn them into references to names that exist nowhere
+EXTRA_POOL = [
+    """VAR x = 2
+-> start
+== start ==
+Before.
+-> greet(3) ->
+<- side(x, 1)
+~ x = twice(x)
+{twice(x)} and {start}
+-> pass(-> start) ->
+* [go] -> greet(x) -> start
+* {TURNS_SINCE(-> start) > 0} other -> DONE
+- -> END
+== greet(n) ==
+Hello {n}.
+->->
+== pass(-> target) ==
+passing
+->->
+== side(a, b) ==
+side {a + b}
+-> DONE
+== function twice(v) ==
+~ return v * 2
+""",
+    """LIST mood = calm, (angry)
+VAR where = -> hall
+-> hall
+== hall ==
+= entry
+In the hall. {hall.entry}
+-> where
+= again
+* (pick) [look] -> show(mood) -> again
+* {pick} [leave] -> cellar.stairs
+== cellar ==
+= stairs
+Down. {READ_COUNT(-> hall.entry)}
+-> tunnel2(1, 2) -> -> END
+== tunnel2(p, q) ==
+{p}{q}
+->->
+== show(m) ==
+{m}
+->->
+""",
+]
+
+
+def misname(src, rnd):
+    """one reference (divert, tunnel, thread, call) gets a name that is defined nowhere"""
+    pats = [r"->\s*([a-z][\w.]*)\s*\(", r"->\s*([a-z][\w.]*)\s*->", r"<-\s*([a-z][\w.]*)", r"->\s*([a-z][\w.]*)", r"\b([a-z]\w*)\s*\("]
+    hits = []
+    for p in pats:
+        hits += [(m.start(1), m.end(1)) for m in re.finditer(p, src)]
+    if not hits:
+        return None
+    a, b = rnd.choice(hits)
+    return src[:a] + rnd.choice(["nosuch", "great", src[a:b] + "x", "no.such"]) + src[b:]
+
+
 def mutate_source(src, rnd, pool):
     kind = rnd.choice(["delline", "dupline", "swapline", "insert", "delchar", "splice", "soup", "truncate", "indent", "unicode",
-                       "rename", "nest", "bytes"])
+                       "rename", "nest", "bytes", "misname", "misname"])
+    if kind == "misname":
+        out = misname(src, rnd)
+        if out is not None:
+            return kind, out
     lines = src.split("\n")
     if kind == "delline" and lines:
         del lines[rnd.randrange(len(lines))]
@@ -148,6 +215,7 @@ def run(tier, seed):
         pool.append(open(c["inkfile"], encoding="utf-8-sig").read())
     for g in common.gen_programs(30 if quick else 300, seed, vars=3, lists=0.5, externals=0.5, seq_inline=1):
         pool.append(g["src"])
+    pool += EXTRA_POOL * 3
     n = 1500 if quick else 60000
     inputs = []
     for i in range(n):
@@ -189,7 +257,8 @@ def run(tier, seed):
     outcomes = {}
     for i, (kind, src) in enumerate(inputs):
         o = first.get(i, {})
-        nlines = src.count("\n") + 1
+        # the lines of the input: what follows a final line end is not a line
+        nlines = max(1, src.count("\n") + (0 if src.endswith("\n") else 1))
         if "abort" in o or "detail" not in o and "json" not in o:
             res, line = ("timeout" if o.get("abort", (0,))[0] == -999 else "abort"), 0
         elif o.get("json"):
